@@ -31,3 +31,16 @@ CHECKS['C18'] = dict(
     note='The generated ALL(*) parser is not analysed: which texts parse as kern tokens is outside this check. Trusted: the frozen table of own '
          'categories per spine type (text=LYRICS, dynam/dyn=DYNAMICS, harm=HARMONY, mxhm=HARMONY|MHXM, fing=FINGERING, unknown=OTHER).',
 )
+
+CHECKS['C14'] = dict(
+    category='other',
+    technique='interprocedural effect (mutation) analysis over a typed call graph with fresh-object nesting levels; lemmas on dunder methods, property getters and callable values',
+    text='For each of the 36 read-only entry points the analysis shows that no function reachable from it writes to anything reachable from '
+         'an argument (document, self, caller-supplied option lists), from a module-level mutable or from a class attribute; file output '
+         'only where the API promises it. Because there is no write at all, the result holds for every document, option set and call '
+         'history, including calls that raise half-way.',
+    note='Decides the mutation clause. Not decided: indistinguishability of two imports through outputs that print identities (graph). '
+         'Trusted: CPython semantics of stores and of the mutating methods of built-in containers; return annotations `-> str/int/bool` '
+         '(values of those types carry no aliases); calls that the typed resolution cannot resolve fall back to class-hierarchy analysis '
+         'on the method name, an unresolved call on an analysed path ends the run with exit 2.',
+)
